@@ -488,7 +488,11 @@ class FieldHeader:
 
     @property
     def disambiguated(self) -> str:
-        return self.raw + "_" if self.raw in utils.RESERVED_NAMES else self.raw
+        # A dotted path reads a nested message: every segment is an attribute.
+        return ".".join(
+            segment + "_" if segment in utils.RESERVED_NAMES else segment
+            for segment in self.raw.split(".")
+        )
 
 
 @dataclasses.dataclass(frozen=True)
@@ -1298,6 +1302,11 @@ class RoutingParameter:
         group_names = list(regex.groupindex)
         # Only 1 named segment is allowed and so only 1 key.
         return group_names[0] if group_names else self.field
+
+    @property
+    def disambiguated_field(self) -> str:
+        """The attribute path that reads `field` from a request object."""
+        return FieldHeader(self.field).disambiguated
 
     @property
     def sample_request(self) -> str:
